@@ -63,6 +63,12 @@ public:
   void restrictToConstraint(const ConstraintInterface& c);
 
   void discretize() {}
+
+  /**
+   * @brief There is one single class, whatever the number asked for
+   * (a mixture forwards this call to all its components).
+   */
+  void setNumberOfCategories(size_t nbClasses) {}
 };
 } // end of namespace bpp.
 #endif // BPP_NUMERIC_PROB_CONSTANTDISTRIBUTION_H
